@@ -1,2 +1,7 @@
+pub mod extract;
+pub mod r#gen;
+pub mod model;
+pub mod realise;
 pub mod runner;
 pub mod tape;
+pub mod validate;
